@@ -8,6 +8,7 @@ CONSTANTS
  PatchCL = TRUE
  Mut = "none"
  RecordHist = FALSE
+ Monitor = FALSE
  FullProduct = TRUE
  MaxN = 8
 INVARIANT EmitInit
